@@ -5,6 +5,9 @@ import vlib, ldpc, sessions
 
 
 def run(c):
+    import gen_params as gp_mod
+    for pbm in gp_mod.generate_claim(c.snap)["problems"]:      # the IS_LAST_SYMBOL_NULL case, regenerated; Properties_C15.v ties it to last_symbol_null_claim
+        c.proof_failed.append({"translator": pbm})
     c.prove(["Properties_C15.v"])
     rng = c.rng
     reqs = []
